@@ -310,6 +310,56 @@ func genC07(seed int64, thorough bool, target string) []*c07Case {
 		d[2], d[3] = 0xff, 0xff
 		dsem("reserved-bytes-set", false, d)
 	}
+	// 6b. data packets: the full product of source / destination node and service classes, including
+	// the reserved services on both sides and the target's own id as the source
+	{
+		nodes := []string{target, "SELF", "w", "neverheard", ""}
+		fromSvcs := []string{"ping", "unreach", "x", ""}
+		toSvcs := []string{"ping", "unreach", "control", "nosuch", ""}
+		for _, fn := range nodes {
+			for _, tn := range nodes {
+				for _, fs := range fromSvcs {
+					msgs := [][]byte{}
+					f, t := fn, tn
+					if f == "SELF" {
+						f = h()
+					}
+					if t == "SELF" {
+						t = h()
+					}
+					for _, ts := range toSvcs {
+						for _, ttl := range []byte{1, 30} {
+							msgs = append(msgs, wire.EncodeData(ttl, f, t, fs, ts, []byte("{}")))
+						}
+					}
+					lf, lt := fn, tn
+					if lf == target {
+						lf = "TARGET"
+					}
+					if lt == target {
+						lt = "TARGET"
+					}
+					dsem(fmt.Sprintf("product:from=%s/%s:to=%s", lf, fs, lt), false, msgs...)
+				}
+			}
+		}
+	}
+	// 6c. a handshake that is refused, followed at once by a burst of further datagrams on the same session
+	for _, fwd := range []string{target, ""} {
+		for _, nb := range []int{3, 12, 60} {
+			msgs := [][]byte{wire.EncodeRoute(&wire.Route{NodeID: fwd, UpdateID: uid(), UpdateEpoch: 6, UpdateSequence: 1, Connections: map[string]float64{target: 1}, ForwardingNode: fwd})}
+			for i := 0; i < nb; i++ {
+				msgs = append(msgs, wire.EncodeRoute(&wire.Route{NodeID: h(), UpdateID: uid(), UpdateEpoch: 6, UpdateSequence: uint64(i + 2), Connections: map[string]float64{target: 1}, ForwardingNode: h()}))
+			}
+			lab := "own-id"
+			if fwd == "" {
+				lab = "empty-id"
+			}
+			for rep := 0; rep < 4; rep++ {
+				add(fmt.Sprintf("refused-then-burst:%s:%d", lab, nb), "pre", true, msgs...)
+			}
+		}
+	}
 	// 7. rejects
 	for _, phase := range []string{"pre", "post"} {
 		add("reject:plain", phase, false, []byte{3, '[', ']'})
